@@ -79,6 +79,20 @@ Definition arch_name (hdname : string) : aerr + string :=
       inr n
   end.
 
+(* the four size comparisons of the loop, by name, so that the operators the translator reads
+   from archive.go can be held against them (Props/C16.v, C16_limit_operators) *)
+Definition entry_over_remaining (size rem : Z) : bool := size >? rem.        (* hd.Size > remainingSize *)
+Definition entry_over_file_limit (size maxf : Z) : bool := size >? maxf.     (* hd.Size > MaxDecompressedFileSize *)
+Definition short_read (written size : Z) : bool := written <? size.          (* bytesWritten < hd.Size *)
+Definition budget_exhausted (rem : Z) : bool := rem <=? 0.                   (* remainingSize <= 0 *)
+
+(* a Go comparison operator as a predicate on Z *)
+Definition cmp_of (op : string) : Z -> Z -> bool :=
+  if String.eqb op ">" then Z.gtb else if String.eqb op ">=" then Z.geb
+  else if String.eqb op "<" then Z.ltb else if String.eqb op "<=" then Z.leb
+  else if String.eqb op "==" then Z.eqb else if String.eqb op "!=" then (fun a b => negb (Z.eqb a b))
+  else fun _ _ => false.
+
 (* one io.Copy through io.LimitReader(tr, remaining): what was asked and what was read *)
 Record rd := mkRd { rd_size : Z; rd_rem : Z; rd_n : Z }.
 
@@ -94,13 +108,13 @@ Fixpoint load_go (maxf rem : Z) (es : list tentry) : (aerr + list file) * list r
         match arch_name (te_name e) with
         | inl err => (inl err, [])
         | inr n =>
-            if te_size e >? rem then (inl ETotal, []) else
-            if te_size e >? maxf then (inl EFile, []) else
+            if entry_over_remaining (te_size e) rem then (inl ETotal, []) else
+            if entry_over_file_limit (te_size e) maxf then (inl EFile, []) else
             let w := Z.min (slen (te_data e)) rem in
             let r := mkRd (te_size e) rem w in
             if te_rerr e then (inl EStream, [r]) else
             let rem' := rem - w in
-            if (w <? te_size e) || (rem' <=? 0) then (inl ETotal, [r]) else
+            if short_read w (te_size e) || budget_exhausted rem' then (inl ETotal, [r]) else
             let data := substring 0 (Z.to_nat w) (te_data e) in
             let '(res, rs) := load_go maxf rem' t in
             (match res with
